@@ -142,13 +142,13 @@ package tm
 //@   modifies ghost.all, heap.all
 //@   requires ctx != nil
 //@   requires ghost.commit_sends == 0 && ghost.rollback_sends == 0 && ghost.begin_sends == 0 && ghost.other_sends == 0 && !ghost.commit_acked && !ghost.rollback_acked && ghost.biz_calls == 0 && !ghost.biz_panicked
-//@   ensures C04/decision-once: !called("commitOrRollback#2")
-//@   ensures C04/decision-argument: called("commitOrRollback#1") ==> callarg("commitOrRollback#1", 1) == (ghost.biz_calls == 1 && ghost.biz_err_nil && !ghost.biz_panicked)
-//@   ensures C04/decision-after-business: called("commitOrRollback#1") ==> ghost.biz_calls == 1
-//@   ensures C04/surface: result == nil ==> ghost.biz_calls == 1 && ghost.biz_err_nil && !ghost.biz_panicked && (called("commitOrRollback#1") ==> callres("commitOrRollback#1", 0) == nil)
-//@   ensures C04/business-once: ghost.biz_calls <= 1
-//@   ensures C04/begin-failure-surfaces: called("begin#1") && callres("begin#1", 0) != nil ==> result != nil && ghost.biz_calls == 0 && !called("commitOrRollback#1")
-//@   ensures_on_panic C04/no-panic-escapes: false
+//@   ensures decision-once: !called("commitOrRollback#2")
+//@   ensures decision-argument: called("commitOrRollback#1") ==> callarg("commitOrRollback#1", 1) == (ghost.biz_calls == 1 && ghost.biz_err_nil && !ghost.biz_panicked)
+//@   ensures decision-after-business: called("commitOrRollback#1") ==> ghost.biz_calls == 1
+//@   ensures surface: result == nil ==> ghost.biz_calls == 1 && ghost.biz_err_nil && !ghost.biz_panicked && (called("commitOrRollback#1") ==> callres("commitOrRollback#1", 0) == nil)
+//@   ensures business-once: ghost.biz_calls <= 1
+//@   ensures begin-failure-surfaces: called("begin#1") && callres("begin#1", 0) != nil ==> result != nil && ghost.biz_calls == 0 && !called("commitOrRollback#1")
+//@   ensures_on_panic no-panic-escapes: false
 //@   let cv0 := ctxvalue(ctx, seataContextVariable)
 //@   let in_gtx := isT(cv0, *ContextVariable) && cv0.(*ContextVariable) != nil && cv0.(*ContextVariable).Xid != ""
 //@   let xid0 := ite(in_gtx, cv0.(*ContextVariable).Xid, "")
@@ -156,7 +156,7 @@ package tm
 //@   let name0 := ite(in_gtx, cv0.(*ContextVariable).TxName, "")
 //@   ensures frame: in_gtx ==> cv0.(*ContextVariable).Xid == xid0 && cv0.(*ContextVariable).TxRole == role0 && cv0.(*ContextVariable).TxName == name0
 //@   ensures_on_panic frame-on-panic: in_gtx ==> cv0.(*ContextVariable).Xid == xid0 && cv0.(*ContextVariable).TxRole == role0 && cv0.(*ContextVariable).TxName == name0
-//@   ensures C07/an-arriving-xid-is-joined-never-ended: in_gtx && gc != nil && gc.Name != "" && (gc.Propagation == Required || gc.Propagation == Supports || gc.Propagation == Mandatory) ==> ghost.begin_sends == 0 && ghost.commit_sends == 0 && ghost.rollback_sends == 0
+//@   ensures an-arriving-xid-is-joined-never-ended: in_gtx && gc != nil && gc.Name != "" && (gc.Propagation == Required || gc.Propagation == Supports || gc.Propagation == Mandatory) ==> ghost.begin_sends == 0 && ghost.commit_sends == 0 && ghost.rollback_sends == 0
 //@   let in_scope := isT(cv0, *ContextVariable) && cv0.(*ContextVariable) != nil && cv0.(*ContextVariable).Xid == ""
 //@   let role1 := ite(in_scope, cv0.(*ContextVariable).TxRole, 0)
 //@   let name1 := ite(in_scope, cv0.(*ContextVariable).TxName, "")
